@@ -60,6 +60,8 @@ FLAVOUR["d"] = {("C%02d" % i): _GENERIC for i in range(1, 21)}
 FLAVOUR["e"] = {("C%02d" % i): _GENERIC + " Avoid the most obvious spot: look for a second, less travelled place in the code where the property can be broken." for i in range(1, 21)}
 FLAVOUR["f"] = {("C%02d" % i): _GENERIC + " Avoid the obvious spots (the central decision function of the property, the parser's main loop, the store's lookup): look at the glue instead - how values are handed from one layer to the next (identifiers, names, serial numbers, locations, configuration plumbing, serialisation, error values that are translated or swallowed, clean-up and shutdown paths, retries, what happens on the second and third use of an object)." for i in range(1, 21)}
 
+FLAVOUR["g"] = {("C%02d" % i): _GENERIC + " Look at the fetch side: how a CRL location becomes a loader (loader factory, scheme detection), how loaders retry and fail over between several distribution points, what the loader object remembers between calls, and how a loader error travels back to the repository - the second, third and later use of the same loader object matters." for i in range(1, 21)}
+
 
 def main():
     pid, rnd = sys.argv[1], sys.argv[2]
